@@ -272,15 +272,7 @@ SGal3TangentBase<_Derived>::ljac() const {
 
   // Block E
   // Note - we use here a temporary block to hold E
-  Jl.template block<3, 3>(0, 6) = I33(Scalar(0.5));
-  if (theta_sq > Constants<Scalar>::eps) {
-    const Scalar A = (theta - sin_t) / theta_sq / theta;
-    const Scalar B = (
-      theta_sq + Scalar(2) * cos_t - Scalar(2)
-    ) / (Scalar(2) * theta_sq * theta_sq);
-
-    Jl.template block<3, 3>(0, 6).noalias() += A * W + B * WW;
-  }
+  fillE(Jl.template block<3, 3>(0, 6), so3);
 
   // Block E * nu
   Jl.template block<3, 1>(0, 9) = Jl.template block<3, 3>(0, 6) * lin2();
@@ -440,17 +432,20 @@ void SGal3TangentBase<_Derived>::fillE(
 
   E.noalias() = I(Scalar(0.5), Scalar(0.5), Scalar(0.5)).toDenseMatrix();
 
-  // small angle approx.
-  if (theta_sq < Constants<Scalar>::eps) {
-    return;
-  }
-
-  const Scalar theta = sqrt(theta_sq); // rotation angle
-
-  const Scalar A = (theta - sin(theta)) / theta_sq / theta;
-  const Scalar B = (theta_sq + Scalar(2) * cos(theta) - Scalar(2)) / (Scalar(2) * theta_sq * theta_sq);
-
   const typename SO3Tangent<Scalar>::LieAlg W = so3.hat();
+
+  Scalar A, B;
+
+  // small angle approx.
+  if (theta_sq * theta_sq * theta_sq < Constants<Scalar>::eps) {
+    A = Scalar(1. / 6.)  - Scalar(1. / 120.) * theta_sq + Scalar(1. / 5040.)  * theta_sq * theta_sq;
+    B = Scalar(1. / 24.) - Scalar(1. / 720.) * theta_sq + Scalar(1. / 40320.) * theta_sq * theta_sq;
+  } else {
+    const Scalar theta = sqrt(theta_sq); // rotation angle
+
+    A = (theta - sin(theta)) / theta_sq / theta;
+    B = (theta_sq + Scalar(2) * cos(theta) - Scalar(2)) / (Scalar(2) * theta_sq * theta_sq);
+  }
 
   E.noalias() += A * W + B * W * W;
 }
